@@ -433,11 +433,12 @@ SCHED_LD = ["-Wl," + ",".join("--wrap=" + w for w in SCHED_WRAP)]
 CHECKS["C18"] = {
     "engine": "E3",
     "technique": "preemption-bounded systematic scheduling (iterative context bounding) of real threads at link-time interposed libc calls of the library, plus a separate free-running ThreadSanitizer pass of the same thread bodies",
-    "level_text": "every unordered pair of four thread bodies (read/query/write, build/set/merge, layered read with options, malformed file; each on private files "
+    "level_text": "every unordered pair of five thread bodies (read/query/write, build/set/merge, layered read with options, malformed file, layered read on the "
+                  "process-wide defaults - drop-ins-only mode in one thread, two-directory read in the other; each on private files "
                   "and objects) is executed under EVERY schedule with at most B preemptions, a scheduling point being every libc call the library makes (malloc, "
                   "free, strdup, asprintf, snprintf, getline, fopen, lstat, scandir, strto*, ...); every thread's complete result text must equal that of the body "
                   "run alone; ASan active. Unsynchronised accesses that do not straddle a libc call are left to the separate free-running ThreadSanitizer pass "
-                  "(16 threads x 20 rounds x 4 bodies) whose suppressions name exactly the exempt last-error-location record",
+                  "(16 threads x 20 rounds x 5 bodies) whose suppressions name exactly the exempt last-error-location record",
     "level_note": "bounded: pairs of the full bodies with <= 1 preemption (quick); additionally triples with <= 1 and pairs of shortened bodies with <= 2 preemptions (thorough); preemption only at libc calls; no weak-memory "
                   "effects; the TSan pass observes one family of free-running schedules (it can miss, it cannot falsely accuse); documented process-wide setters and econf_errLocation are not called concurrently",
     "rule": "case = (combination of bodies, schedule); non-trivial = at least one preemption taken; distinct = distinct choice vectors; evaluations counts complete executions",
